@@ -8,7 +8,7 @@ CONSTANTS
   MaxHops = 3
   WithMigration = FALSE
   EmptyTableAtStart = FALSE
-  AtomicAsk = FALSE
+  AtomicAsk = TRUE
   WithFailover = TRUE
   FixRefreshOnDialError = TRUE
 INVARIANTS EqualsReference EffectOnce SingleCopy CopyIsReference NoLostKey ErrorsOnlyWhileStale
